@@ -21,19 +21,26 @@ PROFILES = {
 }
 
 
+# the same requests made the way real strategies also make them (explicit transactions executed more than once or kept open across
+# updates, order objects offered again, orders filed without being sent, `with trade:` blocks that raise, requests from other callbacks)
+USAGE_MIX = {"p_batch": 0.6, "p_reoffer": 0.25, "p_reoffer_same_step": 0.12, "p_hold": 0.3, "p_execute_false": 0.06, "p_trade_ctx_raise": 0.08, "p_on_close": 0.5}
+
+
 def build(desc):
     prof = dict(PROFILES[desc["profile"]])
     prof.update(desc.get("overrides") or {})
     case, snaps = simgen.gen_case(desc["seed"], desc["idx"], salt=desc.get("salt", 0), **prof)
+    if desc.get("usage"):
+        simgen.usage_variants(case, snaps, simgen.mk_rng(desc["seed"], desc["idx"], 909), **desc["usage"])
     return case, snaps
 
 
-def plan_profiles(tier, seed, weights, quick_n, thorough_n):
+def plan_profiles(tier, seed, weights, quick_n, thorough_n, usage=USAGE_MIX):
     n = quick_n if tier == "quick" else thorough_n
     names = []
     for name, w in weights:
         names += [name] * w
-    return [{"seed": seed, "idx": i, "profile": names[i % len(names)]} for i in range(n)]
+    return [dict({"seed": seed, "idx": i, "profile": names[i % len(names)]}, **({"usage": usage} if (usage and i % 3 == 2) else {})) for i in range(n)]
 
 
 def sample_of(case, tr, limit=12):
